@@ -279,6 +279,148 @@ def specTour (v : Veh) (acts : List RAct) (t : WTour) : List String :=
   let c9 := if t.stops.all (fun s => !s.activities.isEmpty) then [] else ["a stop without activities"]
   c1 ++ c2 ++ c3 ++ c4 ++ c5 ++ c6 ++ c7 ++ c8 ++ c9
 
+/-! ## reserved times written as breaks: model of `break_writer.rs::insert_reserved_times_as_breaks` / `insert_break`
+
+Runs between the fold and the tidy pass. Stops may now be transit stops (no location, no distance). Time windows are pairs. -/
+
+structure XStop where
+  loc : Option Nat
+  arrival : Int
+  departure : Int
+  distance : Option Int
+  load : List Int
+  activities : List WActivity
+deriving Repr, BEq
+
+structure XTour where
+  stops : List XStop
+  stat : WStat
+deriving Repr, BEq
+
+/-- a reserved time span of the vehicle: an exact window or an offset from the tour's departure, and the break's duration -/
+structure Reserved where
+  offset : Bool
+  start : Int
+  stop : Int
+  dur : Int
+deriving Repr
+
+abbrev TW := Int × Int
+
+def twIntersects (a b : TW) : Bool := decide (a.1 ≤ b.2) && decide (b.1 ≤ a.2)
+def twIntersectsX (a b : TW) : Bool := decide (a.1 < b.2) && decide (b.1 < a.2)
+def twOverlap (a b : TW) : Option TW := if twIntersects a b then some (max a.1 b.1, min a.2 b.2) else none
+
+def WStop.toX (s : WStop) : XStop :=
+  { loc := some s.loc, arrival := s.arrival, departure := s.departure, distance := some s.distance, load := s.load, activities := s.activities }
+
+/-- stable insertion by the writer's comparator: activities without a time first, then by start time -/
+def timeLt (a b : WActivity) : Bool :=
+  match a.time, b.time with
+  | some x, some y => decide (x.1 < y.1)
+  | some _, none => false
+  | none, some _ => true
+  | none, none => false
+
+/-- `x` stood in front of the (sorted) rest: it stays in front of everything that is not strictly smaller -/
+def insertByTime (x : WActivity) : List WActivity → List WActivity
+  | [] => [x]
+  | y :: r => if timeLt y x then y :: insertByTime x r else x :: y :: r
+
+/-- `sort_by` (stable): insertion from the right keeps equal elements in order -/
+def sortByTime (l : List WActivity) : List WActivity := l.foldr insertByTime []
+
+def insertAt {α : Type} (l : List α) (i : Nat) (x : α) : List α := l.take i ++ x :: l.drop i
+
+def breakActivity (tw : TW) : WActivity := { jobId := "break", type := "break", loc := none, time := some tw, tag := none }
+
+/-- an activity that overlaps the reserved time ends later: by what is left of the break after the overlap plus the overlap -/
+def stretch (rtw : TW) (a : WActivity) : WActivity :=
+  match a.time with
+  | some t =>
+    (match twOverlap t rtw with
+     | some o => { a with time := some (t.1, t.2 + (rtw.2 - o.2 + (o.2 - o.1))) }
+     | none => a)
+  | none => a
+
+/-- `insert_break` for one stop; `moved` = the `TransitBreakMoved` information (leg index, shifted break window) -/
+def insertBreak (v : Veh) (moved : Option (Nat × TW)) (rtw : TW) (ov : Int) (breakTime : Int) (idx : Nat)
+    (stop : XStop) (stat : WStat) : XStop × WStat :=
+  let stopTw : TW := (stop.arrival, stop.departure)
+  let breakIdx := match stop.activities.zipIdx.find? (fun x => twIntersects (x.1.time.getD stopTw) rtw) with
+    | some (_, k) => k + 1
+    | none => stop.activities.length
+  let movedHere : Option TW := match moved with
+    | some (leg, tw) => if leg == idx then some tw else none
+    | none => none
+  let breakCost := breakTime * v.cs
+  let stat1 : WStat := match stop.loc with
+    | some _ =>
+      if movedHere.isSome || breakTime == 0 then { stat with cost := stat.cost + breakCost }
+      else { stat with cost := stat.cost + (breakCost - ov * v.cs), waiting := stat.waiting - ov }
+    | none => { stat with driving := stat.driving - breakTime }
+  let (activityTime, stat2) : TW × WStat := match movedHere with
+    | some tw => (tw, { stat1 with cost := stat1.cost - breakCost, driving := stat1.driving - breakTime })
+    | none => (rtw, stat1)
+  let acts1 := insertAt stop.activities breakIdx (breakActivity activityTime)
+  let acts2 := acts1.zipIdx.map (fun x => if x.2 == breakIdx then x.1 else stretch rtw x.1)
+  ({ stop with activities := sortByTime acts2 }, stat2)
+
+def waitingOverlap (acts : List RAct) (rtw : TW) (dur : Int) : Int :=
+  min ((acts.filter (fun a => decide (a.arr < a.tws))).foldl
+        (fun acc a => acc + (match twOverlap (a.arr, a.tws) rtw with | some o => o.2 - o.1 | none => 0)) 0) dur
+
+/-- what the scan over the legs finds: `inl` = break moved to the end of the previous stop, `inr` = transit stop needed -/
+def findLeg (stops : List XStop) (rstart : Int) (rtw : TW) : Option (Sum (Nat × TW) (Nat × List Int)) :=
+  ((stops.zip (stops.drop 1)).zipIdx).findSome? (fun x =>
+    let travel : TW := (x.1.1.departure, x.1.2.arrival)
+    if twIntersectsX travel rtw then
+      some (if rstart < travel.1 then Sum.inl (x.2, (travel.1 - (rtw.2 - rtw.1), travel.1)) else Sum.inr (x.2, x.1.1.load))
+    else none)
+
+def insertOneReserved (v : Veh) (acts : List RAct) (shift : TW) (t : XTour) (r : Reserved) : XTour :=
+  let rs := if r.offset then shift.1 + r.start else r.start
+  let re := if r.offset then shift.1 + r.stop else r.stop
+  let rtw : TW := (re, re + r.dur)
+  if !twIntersectsX shift rtw then t else
+  let info := findLeg t.stops rs rtw
+  let stops1 := match info with
+    | some (Sum.inr (i, load)) =>
+      insertAt t.stops (i + 1) { loc := none, arrival := rtw.1, departure := rtw.2, distance := none, load := load, activities := [] }
+    | _ => t.stops
+  let moved : Option (Nat × TW) := match info with
+    | some (Sum.inl m) => some m
+    | _ => none
+  let ov := waitingOverlap acts rtw r.dur
+  let res := stops1.zipIdx.foldl (fun (acc : List XStop × WStat) x =>
+    if twIntersectsX (x.1.arrival, x.1.departure) rtw then
+      let (s', st') := insertBreak v moved rtw ov r.dur x.2 x.1 acc.2
+      (acc.1 ++ [s'], st')
+    else (acc.1 ++ [x.1], acc.2)) ([], t.stat)
+  { stops := res.1, stat := { res.2 with breakT := res.2.breakT + r.dur } }
+
+def insertBreaks (v : Veh) (acts : List RAct) (openEnd : Bool) (rs : List Reserved) (t : XTour) : XTour :=
+  match acts.head?, acts.getLast? with
+  | some st, some en =>
+    let shift : TW := (st.dep, if openEnd then en.dep else en.arr)
+    rs.foldl (insertOneReserved v acts shift) t
+  | _, _ => t
+
+def tidyX (s : XStop) : XStop :=
+  match s.activities with
+  | [a] =>
+    let sameSchedule := match a.time with | none => true | some t => s.arrival == t.1
+    let sameLoc := match a.loc, s.loc with | some l, some sl => l == sl | _, _ => true
+    { s with activities := [{ a with time := if sameSchedule then none else a.time, loc := if sameLoc then none else a.loc }] }
+  | _ => s
+
+/-- `create_tour` with reserved times: fold, fixed cost, breaks, tidy -/
+def writeTourX (v : Veh) (acts : List RAct) (openEnd : Bool) (rs : List Reserved) : Option XTour :=
+  (foldRoute v acts).map fun s =>
+    let t0 : XTour := { stops := s.stops.map WStop.toX, stat := { s.stat with cost := s.stat.cost + v.fixed } }
+    let t1 := insertBreaks v acts openEnd rs t0
+    { t1 with stops := t1.stops.map tidyX }
+
 /-! ## tours with required breaks (reserved times): clauses on the written tour only
 
 `insert_reserved_times_as_breaks` (break_writer.rs) is not modelled; a tour of a vehicle with a required break is judged by what
